@@ -14,19 +14,27 @@ def contract(cores, keep_bounds=False):
 
     returns array of shape rows + cols (boundary ranks must be 1) or, with keep_bounds,
     (r_0,) + rows + cols + (r_d,).  Reads nothing but the core arrays."""
+    from vt.common import Violation
     d = len(cores)
-    x = np.asarray(cores[0])
-    r0 = x.shape[0]
-    # x has shape (r0, m1, n1, ..., mk, nk, r_k)
-    for i in range(1, d):
-        x = np.tensordot(x, np.asarray(cores[i]), axes=([x.ndim - 1], [0]))
-    # now shape (r0, m1, n1, m2, n2, ..., md, nd, rd)
-    perm = [0] + [1 + 2 * i for i in range(d)] + [2 + 2 * i for i in range(d)] + [2 * d + 1]
-    x = np.transpose(x, perm)
-    if keep_bounds:
-        return x
-    if x.shape[0] != 1 or x.shape[-1] != 1:
-        raise ValueError('boundary ranks are not 1')
+    try:
+        shapes = [np.shape(c) for c in cores]
+        if any(len(sh) != 4 for sh in shapes) or any(shapes[i][3] != shapes[i + 1][0] for i in range(d - 1)):
+            raise ValueError('core shapes %s do not chain' % (shapes,))
+        x = np.asarray(cores[0])
+        # x has shape (r0, m1, n1, ..., mk, nk, r_k)
+        for i in range(1, d):
+            x = np.tensordot(x, np.asarray(cores[i]), axes=([x.ndim - 1], [0]))
+        # now shape (r0, m1, n1, m2, n2, ..., md, nd, rd)
+        perm = [0] + [1 + 2 * i for i in range(d)] + [2 + 2 * i for i in range(d)] + [2 * d + 1]
+        x = np.transpose(x, perm)
+        if keep_bounds:
+            return x
+        if x.shape[0] != 1 or x.shape[-1] != 1:
+            raise ValueError('boundary ranks %d, %d are not 1' % (x.shape[0], x.shape[-1]))
+    except ValueError as exc:
+        # a core list that cannot be contracted is what a library routine handed back (harness-built lists are checked by
+        # construction): an inconsistent tensor train, not a harness error
+        raise Violation('returned_inconsistent', 'the cores do not form a tensor train: %s' % exc)
     return x.reshape(x.shape[1:-1])
 
 
